@@ -1,4 +1,6 @@
 mod probing;
+#[cfg(feature = "verif-hooks")]
+mod verif;
 
 use probing::{ProbeResult, ProbingState, default_probing_state, new_probe_id, new_probe_results};
 use rand::RngCore;
